@@ -16,6 +16,9 @@ TRUSTED = ['random.choice returns an element of the list it is given (the theore
 ASSUMPTIONS = ['CPython set comprehension semantics']
 
 
+# areas of the pure core whose TRANSLATION (Generated/PyCore.lean) is run next to the real code in this check
+TRANSLATED_AREAS = ('play',)
+
 def impl_exec(ops):
     """P.rand <hand> <trick-so-far>: RandomPlay.play on a base PlayingPhase in that state, with random.choice recorded"""
     if not any(o.startswith('P.rand') for o in ops):
